@@ -97,13 +97,55 @@ def build_all(jobs=16, pid=None):
     with BuildLock():
         gi = generate()
         if gi["errors"]:
-            return False, "translator: " + "; ".join(gi["errors"]), gi
+            # a generator that no longer understands ITS source files breaks the tie of the properties that use its output,
+            # not of the others: fail only if props/<pid>.v or the executable model depends on the file it could not write
+            broken = [e for e in gi["errors"] if pid is None or _depends_on_generated(pid, e.split(":")[0].strip())]
+            if broken:
+                return False, "translator: " + "; ".join(broken), gi
+            gi["ignored_errors"] = gi["errors"]
         rc, out = sh("test -f Makefile -a Makefile -nt _CoqProject || coq_makefile -f _CoqProject -o Makefile >/dev/null 2>&1; "
                      f"timeout 1700 make -j{jobs} {targets} > ../.cache/make.log 2>&1; rc=$?; grep -v '^COQ' ../.cache/make.log | tail -40; exit $rc", cwd=COQ)
         if rc != 0:
             return False, out, gi
         ok, out2 = build_driver()
         return ok, out + out2, gi
+
+
+def _imports_of(path):
+    import re
+    try:
+        txt = open(path).read()
+    except OSError:
+        return set()
+    txt = re.sub(r"\(\*.*?\*\)", " ", txt, flags=re.S)
+    names = set()
+    for m in re.finditer(r"(?:From\s+\w+\s+)?Require\s+(?:Import|Export)?\s*([^.]*)\.", txt):
+        names.update(m.group(1).split())
+    return names
+
+
+def _depends_on_generated(pid, genfile):
+    """does props/<pid>.v or theories/Dispatch.v (the executable model) import, transitively, the generated file?
+    Unknown names (fingerprints, a crash of the whole generator) count as a dependency."""
+    if not genfile.endswith(".v"):
+        return True
+    target = genfile[:-2]
+    where = {}
+    for root in ("theories", "generated", "props"):
+        d = os.path.join(COQ, root)
+        for fn in os.listdir(d):
+            if fn.endswith(".v"):
+                where[fn[:-2]] = os.path.join(d, fn)
+    seen, todo = set(), [f"{pid}", "Dispatch"]
+    while todo:
+        n = todo.pop()
+        if n in seen or n not in where:
+            continue
+        seen.add(n)
+        if n == target:
+            return True
+        todo.extend(_imports_of(where[n]))
+    return target in seen
 
 
 def build_driver():
